@@ -5,6 +5,7 @@ import (
 	"fmt"
 	"go/token"
 	"go/types"
+	"strings"
 
 	"golang.org/x/tools/go/ssa"
 )
@@ -120,6 +121,20 @@ func ruleChunkLimit(c *Ctx, r *Rep, tier string) {
 	// the limit comparison
 	var limitIf *ssa.BasicBlock
 	passEdge := -1
+	// X: LastChunk().End of the bgzf reader; Y: br.c.End
+	isChunkEnd := func(v ssa.Value) bool {
+		// load of (&(*br.c).End)
+		u, ok := v.(*ssa.UnOp)
+		if !ok {
+			return false
+		}
+		fa, ok := u.X.(*ssa.FieldAddr)
+		if !ok || fieldVarOfAddr(fa).Name() != "End" {
+			return false
+		}
+		f, _ := loadedField(fa.X)
+		return f == fC
+	}
 	for _, b := range fn.Blocks {
 		i := ifOf(b)
 		if i == nil {
@@ -133,20 +148,6 @@ func ruleChunkLimit(c *Ctx, r *Rep, tier string) {
 		cy, oky := bo.Y.(*ssa.Call)
 		if !okx || !oky || staticCallee(&cx.Call) != voff || staticCallee(&cy.Call) != voff {
 			continue
-		}
-		// X: LastChunk().End of the bgzf reader; Y: br.c.End
-		isChunkEnd := func(v ssa.Value) bool {
-			// load of (&(*br.c).End)
-			u, ok := v.(*ssa.UnOp)
-			if !ok {
-				return false
-			}
-			fa, ok := u.X.(*ssa.FieldAddr)
-			if !ok || fieldVarOfAddr(fa).Name() != "End" {
-				return false
-			}
-			f, _ := loadedField(fa.X)
-			return f == fC
 		}
 		switch {
 		case bo.Op == token.GEQ && isChunkEnd(cy.Call.Args[0]):
@@ -167,6 +168,41 @@ func ruleChunkLimit(c *Ctx, r *Rep, tier string) {
 	if limitIf == nil {
 		why += " no comparison of the last read's end with the chunk end found;"
 	} else {
+		// the other operand is where the BGZF reader is *now*: the End of its
+		// LastChunk() (which Seek also sets), not a position the BAM reader
+		// cached after its last record – unless SetChunk refreshes that cache
+		bo := ifOf(limitIf).Cond.(*ssa.BinOp)
+		posArg := bo.X.(*ssa.Call).Call.Args[0]
+		if isChunkEnd(posArg) {
+			posArg = bo.Y.(*ssa.Call).Call.Args[0]
+		}
+		fresh := false
+		var src ssa.Value
+		switch x := posArg.(type) {
+		case *ssa.Field:
+			src = x.X
+		case *ssa.UnOp:
+			if fa, ok := x.X.(*ssa.FieldAddr); ok {
+				if al, ok := fa.X.(*ssa.Alloc); ok {
+					src = singleStore(al)
+				}
+			}
+		}
+		if call, ok := src.(*ssa.Call); ok {
+			if g := staticCallee(&call.Call); g != nil && g.Name() == "LastChunk" && g.Pkg != nil && strings.HasSuffix(g.Pkg.Pkg.Path(), "/bgzf") {
+				fresh = true
+			}
+		}
+		if !fresh && strings.Contains(symKey(posArg), "lastChunk") {
+			for _, e := range effectsOf(c.Func("bam", "(*Reader).SetChunk")) {
+				if e.Kind == "store" && strings.Contains(e.Addr, "lastChunk") {
+					fresh = true
+				}
+			}
+		}
+		if !fresh {
+			why += " the chunk end is compared with " + symKey(posArg) + ", not with the BGZF reader's current position (LastChunk().End): after SetChunk has moved the reader the test still sees where the previous record ended, and a chunk that lies before that point yields no records;"
+		}
 		// newBuffer reachable only over the pass edge or the c == nil edge
 		edgeOK := func(from, to *ssa.BasicBlock) bool {
 			if from == limitIf && from.Succs[passEdge] == to && from.Succs[1-passEdge] != to {
